@@ -200,7 +200,7 @@ def run_cases(tag, imports, files, timeout=600):
             n = names[idx]
             # output goes to a file: a pipe would fill up (64 KB) and stall coqc
             outf = open(os.path.join(cdir, n + '.out'), 'w')
-            p = subprocess.Popen('exec timeout %d coqc -q -w -all -Q %s Bardolph %s.v' % (timeout, COQ, n),
+            p = subprocess.Popen('ulimit -s 4000000 2>/dev/null; exec timeout %d coqc -q -w -all -Q %s Bardolph %s.v' % (timeout, COQ, n),
                                  shell=True, cwd=cdir, stdout=outf, stderr=subprocess.STDOUT)
             running.append((idx, p, outf))
             idx += 1
